@@ -604,6 +604,17 @@ func (repo *GoGitRepo) StoreCommit(treeHash Hash, parents ...Hash) (Hash, error)
 
 // StoreSignedCommit will store a Git commit with the given Git tree. If signKey is not nil, the commit
 // will be signed accordingly.
+// cleanIdent removes from a name or an email taken from the git config what can't be part of the
+// author/committer line of a commit (git does the same): with them the commit is malformed.
+func cleanIdent(s string) string {
+	return strings.Map(func(r rune) rune {
+		if r == '<' || r == '>' || r == '\n' || r == '\r' || r == 0 {
+			return -1
+		}
+		return r
+	}, s)
+}
+
 func (repo *GoGitRepo) StoreSignedCommit(treeHash Hash, signKey *openpgp.Entity, parents ...Hash) (Hash, error) {
 	cfg, err := repo.r.Config()
 	if err != nil {
@@ -612,13 +623,13 @@ func (repo *GoGitRepo) StoreSignedCommit(treeHash Hash, signKey *openpgp.Entity,
 
 	commit := object.Commit{
 		Author: object.Signature{
-			Name:  cfg.Author.Name,
-			Email: cfg.Author.Email,
+			Name:  cleanIdent(cfg.Author.Name),
+			Email: cleanIdent(cfg.Author.Email),
 			When:  time.Now(),
 		},
 		Committer: object.Signature{
-			Name:  cfg.Committer.Name,
-			Email: cfg.Committer.Email,
+			Name:  cleanIdent(cfg.Committer.Name),
+			Email: cleanIdent(cfg.Committer.Email),
 			When:  time.Now(),
 		},
 		Message:  "",
